@@ -598,8 +598,52 @@ class Evaluator(object):
     def call(self, e, env, fi):
         f = e.func
         fname = dump(f)
-        args = [self.expr(a, env, fi) for a in e.args]
-        kwargs = dict((k.arg, self.expr(k.value, env, fi)) for k in e.keywords)
+        args = []
+        for a in e.args:
+            if isinstance(a, ast.Starred):
+                sv = self.expr(a.value, env, fi)
+                if isinstance(sv, L):
+                    args.extend(sv.elts)
+                elif isinstance(sv, K) and isinstance(sv.v, (tuple, str)):
+                    args.extend(K(x) for x in sv.v)
+                elif isinstance(sv, D):
+                    args.extend(K(k) for k in sv.items)
+                elif isinstance(sv, K):
+                    raise _Raise("TypeError")
+                elif self.lenient:
+                    args.append(sv)            # an opaque sequence: kept as a whole
+                else:
+                    raise AnalysisError("starred argument not modelled: %s" % dump(e))
+            else:
+                args.append(self.expr(a, env, fi))
+        kwargs = {}
+        for k in e.keywords:
+            kv = self.expr(k.value, env, fi)
+            if k.arg is None:
+                if isinstance(kv, D):
+                    kwargs.update(kv.items)
+                elif isinstance(kv, (K, L)):
+                    raise _Raise("TypeError")
+                elif self.lenient:
+                    kwargs[None] = kv          # an opaque mapping: kept as a whole
+                else:
+                    raise AnalysisError("** argument not modelled: %s" % dump(e))
+            else:
+                kwargs[k.arg] = kv
+        if fname == "re.sub" and len(args) == 3 and all(isinstance(a, K) and isinstance(a.v, str) for a in args) and not kwargs:
+            import re as _re
+            try:
+                return K(_re.sub(args[0].v, args[1].v, args[2].v))     # constant folding on literals
+            except _re.error:
+                raise _Raise("re.error")
+        if isinstance(f, ast.Name) and f.id in env and isinstance(env[f.id], (Opaque, Sym)) and \
+                self.prog.resolve(fi.module, f) is None:
+            # a callable value held in a local: the call is recorded, its result is opaque
+            if not hasattr(self, "opaque_calls"):
+                self.opaque_calls = []
+            self.opaque_calls.append((env[f.id].label, "__call__", args, kwargs))
+            rv = env[f.id].attrs.get("()") if isinstance(env[f.id], Opaque) else None
+            return rv if rv is not None else Opaque("%s()" % env[f.id].label)
         if fname == "str" and len(args) == 1:
             a = args[0]
             if isinstance(a, K):
